@@ -335,10 +335,12 @@ class C16(Engine):
                 extra = [d for d in b[1] if d not in a[1]][:3]
                 what = "verdict" if a[0] != b[0] and not missing and not extra else \
                        ("order" if not missing and not extra else "diagnostics")
-                vs.append(V("C16.a-same-findings" if "inline" not in diff_opts or len(diff_opts) > 1 else "C16.c-inline-equals-file",
-                            f"{what} differ under {kinds}", ref_verdict=a[0], var_verdict=b[0], missing=missing, extra=extra))
+                only_channel = diff_opts == ["inline"]
+                vs.append(V("C16.c-inline-equals-file" if only_channel else "C16.a-same-findings",
+                            f"{what} differ from the reference run" + (" (input channel only)" if only_channel else ""),
+                            options_changed=kinds, ref_verdict=a[0], var_verdict=b[0], missing=missing, extra=extra))
             elif a[2] != b[2]:
-                vs.append(V("C16.a-same-findings", f"diagnostic texts differ under {'+'.join(diff_opts)}"))
+                vs.append(V("C16.a-same-findings", "diagnostic texts differ from the reference run", options_changed="+".join(diff_opts)))
         return vs
 
     def on_define_line(self, lines, line):
